@@ -12,6 +12,7 @@ From mathcomp Require Import all_ssreflect all_fingroup all_algebra.
 From mathcomp Require Import mxtens.
 Require Import C05.ModelBase C05.ModelCG C05.Model.
 Require Import C05.ProofsAlg C05.ProofsLog C05.ProofsBridge C05.ProofsLRRAD C05.ProofsKron C05.ProofsConv.
+Require Import C05.ModelLayout C05.ProofsLayout C05.ProofsBlockQuad.
 Set Implicit Arguments. Unset Strict Implicit. Unset Printing Implicit Defensive.
 Import GRing.Theory Num.Theory.
 Local Open Scope ring_scope.
@@ -136,6 +137,20 @@ Theorem C05_logdet_blocks : forall (F : realFieldType) (ln : F -> F),
   forall (l : seq (blk F)), (forall B, B \in l -> 0 < \det (projT2 B)) ->
   ln (\det (bdiag l)) = \sum_(B <- l) ln (\det (projT2 B)).
 Proof. exact logdet_blocks. Qed.
+
+(* ... and the inverse quadratic form of a block-diagonal matrix is the SUM over the blocks of the blocks' inverse quadratic
+   forms on the conformal pieces of the vector (what Block*.inv_quad_logdet's sum over the block dimension computes), any
+   number of blocks of any sizes; the interleaved layout is a permutation conjugate acting on the permuted vector. *)
+Theorem C05_inv_quad_blocks : forall (F : fieldType) (l : seq (blk F)) (v : 'cV[F]_(bdim l)),
+  (forall B, B \in l -> projT2 B \in unitmx) ->
+  (v^T *m invmx (bdiag l) *m v) 0 0 = bquad v.
+Proof. exact inv_quad_bdiag. Qed.
+
+Theorem C05_inv_quad_perm_conj : forall (F : fieldType) (n : nat) (s : {perm 'I_n}) (M : 'M[F]_n) (v : 'cV[F]_n),
+  M \in unitmx ->
+  (v^T *m invmx (perm_mx s *m M *m (perm_mx s)^T) *m v) 0 0
+  = (((perm_mx s)^T *m v)^T *m invmx M *m ((perm_mx s)^T *m v)) 0 0.
+Proof. exact inv_quad_perm_conj. Qed.
 
 (* ============================ inverse quadratic forms ============================ *)
 
@@ -383,3 +398,120 @@ rewrite /eigh_ok /=; split => //.
 - by apply/matrixP => i j; rewrite !mxE !big_ord_recl !big_ord0 !mxE !ord1 /ModelBase.mget /= mulr1 mul1r mulr1n !addr0.
 - by rewrite ltr0n.
 Qed.
+
+(* ============================ batch layouts: BatchRepeat fold / unfold, Block* reshape + sum ============================ *)
+(* Index arithmetic on naturals.  Tensors are row-major flat lists with a shape; [flat sh idx] is the flat position of a
+   multi-index, [unflat sh i] its inverse; [valid sh idx]: same length and every component below its dimension.
+   ModelLayout.v transcribes torch's view / permute(..).contiguous() and, line by line, the code of
+   BatchRepeatLinearOperator._move_repeat_batches_to_columns / _move_repeat_batches_back for ANY number k = size rep of batch
+   dimensions: rep = batch_repeat, pb = base batch shape (left-padded with 1s), output batch shape (r_i * p_i)_i. *)
+Local Close Scope ring_scope.
+Local Open Scope nat_scope.
+
+Theorem C05_flat_index_roundtrip : forall (sh : seq nat),
+  (forall i, i < prodn sh -> flat sh (unflat sh i) = i) /\
+  (forall idx, valid sh idx -> unflat sh (flat sh idx) = idx /\ flat sh idx < prodn sh).
+Proof. by move=> sh; split=> [i|idx v]; [exact: flat_unflat | split; [exact: unflat_flat | exact: flat_lt]]. Qed.
+
+(* _move_repeat_batches_to_columns: entry (b_1..b_k, row, j, r_1..r_k) of its result - which the code then views as
+   (base batch, n, t * nrep), i.e. column j * nrep + r of base member b - is entry (r_1 p_1 + b_1, .., r_k p_k + b_k, row, j)
+   of the input: the repeat index of every batch dimension is interleaved with the base index of THAT dimension. *)
+Theorem C05_move_to_columns_denotation : forall (T : Type) (x0 : T) (rep pb : seq nat) (n t : nat) (x : seq T)
+    (r b : seq nat) (row j : nat),
+  size rep = size pb -> valid rep r -> valid pb b -> row < n -> j < t ->
+  nth x0 (move_to_columns x0 rep pb n t x) (flat (pb ++ [:: n; t] ++ rep) (b ++ [:: row; j] ++ r))
+  = nth x0 x (flat (repeat_obs rep pb ++ [:: n; t]) (merged r b pb ++ [:: row; j])).
+Proof. exact move_to_columns_nth. Qed.
+
+Theorem C05_move_back_denotation : forall (T : Type) (x0 : T) (rep pb : seq nat) (n t : nat) (y : seq T)
+    (r b : seq nat) (row j : nat),
+  size rep = size pb -> valid rep r -> valid pb b -> row < n -> j < t ->
+  nth x0 (move_back x0 rep pb n t y) (flat (repeat_obs rep pb ++ [:: n; t]) (merged r b pb ++ [:: row; j]))
+  = nth x0 y (flat (pb ++ [:: n; t] ++ rep) (b ++ [:: row; j] ++ r)).
+Proof. exact move_back_nth. Qed.
+
+(* round trip: _move_repeat_batches_back undoes _move_repeat_batches_to_columns, any rank, any sizes (also empty) *)
+Theorem C05_move_repeat_roundtrip : forall (T : Type) (x0 : T) (rep pb : seq nat) (n t : nat) (x : seq T),
+  size rep = size pb -> size x = prodn (repeat_obs rep pb ++ [:: n; t]) ->
+  move_back x0 rep pb n t (move_to_columns x0 rep pb n t x) = x.
+Proof. exact move_back_to_columns. Qed.
+
+(* The closed-form index maps the EXECUTABLE model runs in the case shards (Model.v: repeat_member / repeat_rf / repeat_bf,
+   repeat_rhs, repeat_iq_vals) are exactly these transcribed pipelines ... *)
+Theorem C05_move_to_columns_model : forall (T : Type) (x0 : T) (rep pb : seq nat) (n t : nat) (x : seq T)
+    (rf bf row j : nat),
+  size rep = size pb -> rf < prodn rep -> bf < prodn pb -> row < n -> j < t ->
+  nth x0 (move_to_columns x0 rep pb n t x) ((bf * n + row) * (t * prodn rep) + (j * prodn rep + rf))
+  = nth x0 x ((repeat_member rep pb rf bf * n + row) * t + j).
+Proof. exact move_to_columns_flat. Qed.
+
+Theorem C05_move_back_model : forall (T : Type) (x0 : T) (rep pb : seq nat) (t : nat) (d : seq T) (of_ j : nat),
+  size rep = size pb -> of_ < prodn (repeat_obs rep pb) -> j < t ->
+  nth x0 (move_back x0 rep pb 1 t d) (of_ * t + j)
+  = nth x0 d (repeat_bf rep pb of_ * (t * prodn rep) + j * prodn rep + repeat_rf rep pb of_).
+Proof. exact move_back_flat. Qed.
+
+Theorem C05_repeat_rhs_is_move_to_columns : forall (F : Type) (A : Arith F) (rep pb : seq nat) (n t : nat)
+    (Rs : seq (cols F)) (x : seq F),
+  size rep = size pb ->
+  (forall o row j, o < prodn (repeat_obs rep pb) -> row < n -> j < t ->
+     nth (a0 A) x ((o * n + row) * t + j) = vget A (nth [::] (nth [::] Rs o) j) row) ->
+  forall bf row c, bf < prodn pb -> row < n -> c < t * prodn rep ->
+  nth (a0 A) (move_to_columns (a0 A) rep pb n t x) ((bf * n + row) * (t * prodn rep) + c)
+  = vget A (nth [::] (nth [::] (repeat_rhs rep pb t Rs) bf) c) row.
+Proof. exact repeat_rhs_is_move_to_columns. Qed.
+
+Theorem C05_repeat_iq_vals_is_move_back : forall (F : Type) (A : Arith F) (rep pb : seq nat) (t : nat) (d : seq F)
+    (of_ j : nat),
+  size rep = size pb -> of_ < prodn (repeat_obs rep pb) -> j < t ->
+  nth (a0 A) (nth [::] (repeat_iq_vals A rep pb t d) of_) j = nth (a0 A) (move_back (a0 A) rep pb 1 t d) (of_ * t + j).
+Proof. exact repeat_iq_vals_is_move_back. Qed.
+
+(* ... the three index maps are mutually consistent ... *)
+Theorem C05_repeat_index_maps_inverse : forall (rep pb : seq nat) (of_ : nat),
+  size rep = size pb -> of_ < prodn (repeat_obs rep pb) ->
+  [/\ repeat_member rep pb (repeat_rf rep pb of_) (repeat_bf rep pb of_) = of_,
+      repeat_rf rep pb of_ < prodn rep & repeat_bf rep pb of_ < prodn pb].
+Proof. exact repeat_member_rf_bf. Qed.
+
+(* ... and DENOTE the right thing, for every batch rank: if the base operator returns, for its member bf and every
+   right-hand-side column, a value q bf column depending on that member and column only (diag(R^T A_bf^-1 R)), then entry
+   (of_, j) of the BatchRepeat result is q on the tiled member repeat_bf of_ (= multi-index of_ mod base batch shape, the
+   semantics of Tensor.repeat and of the dense oracle) and on column j of output member of_'s OWN right-hand side. *)
+Theorem C05_brepeat_inv_quad_denotation : forall (F : Type) (A : Arith F) (q : nat -> vec F -> F) (rep pb : seq nat)
+    (t : nat) (Rs : seq (cols F)) (d : seq F),
+  size rep = size pb ->
+  (forall bf c, bf < prodn pb -> c < t * prodn rep ->
+     nth (a0 A) d (bf * (t * prodn rep) + c) = q bf (nth [::] (nth [::] (repeat_rhs rep pb t Rs) bf) c)) ->
+  forall of_ j, of_ < prodn (repeat_obs rep pb) -> j < t ->
+  nth (a0 A) (nth [::] (repeat_iq_vals A rep pb t d) of_) j = q (repeat_bf rep pb of_) (nth [::] (nth [::] Rs of_) j).
+Proof. exact brepeat_inv_quad_denotation. Qed.
+
+(* Block* wrappers (reduce_inv_quad = False): entry (g, j) of the result is the sequential sum over the k blocks i of the
+   base value on base member g*k+i and on the rows of column j of member g's right-hand side that belong to block i
+   (rows i*m .. i*m+m-1: BlockDiag; rows i, i+k, ..: BlockInterleaved); any outer batch, any k. *)
+Theorem C05_bblock_inv_quad_denotation : forall (F : Type) (A : Arith F) (q : nat -> vec F -> F) (il : bool)
+    (k m t : nat) (Rs : seq (cols F)) (d : seq F),
+  (forall g, g < size Rs -> size (nth [::] Rs g) = t) ->
+  (forall b j, b < size Rs * k -> j < t ->
+     nth (a0 A) d (b * t + j) = q b (nth [::] (nth [::] (block_rhs A il k m Rs) b) j)) ->
+  forall g j, g < size Rs -> j < t ->
+  nth (a0 A) (block_iq_vals A k t (size Rs) d) (g * t + j)
+  = sumn_ A (fun i => q (g * k + i) ((if il then rows_inter A else rows_block A) k m i (nth [::] (nth [::] Rs g) j))) k.
+Proof. exact bblock_inv_quad_denotation. Qed.
+
+(* The regression seeded as C05/1 (all repeat dimensions in front of all base batch dimensions) in this model: identical to
+   the code's layout for ONE batch dimension (everything the repo's tests exercise), different for two. *)
+Theorem C05_blocked_layout_one_dim : forall (T : Type) (x0 : T) (rep pb : seq nat) (n t : nat) (y : seq T),
+  size rep = 1 -> move_back_blocked x0 rep pb n t y = move_back x0 rep pb n t y.
+Proof. exact move_back_blocked_one_dim. Qed.
+
+Theorem C05_blocked_layout_refuted :
+  move_back_blocked 0 [:: 1; 3] [:: 2; 1] 1 1 (iota 0 6) <> move_back 0 [:: 1; 3] [:: 2; 1] 1 1 (iota 0 6).
+Proof. exact move_back_blocked_refuted. Qed.
+
+(* the hypotheses are satisfiable: base batch (2, 1), repeat (1, 3) *)
+Example C05_hyp_satisfiable_layout :
+  size [:: 1; 3] = size [:: 2; 1] /\ valid [:: 1; 3] [:: 0; 2] /\ valid [:: 2; 1] [:: 1; 0] /\
+  repeat_member [:: 1; 3] [:: 2; 1] 2 1 = 5 /\ repeat_bf [:: 1; 3] [:: 2; 1] 5 = 1 /\ repeat_rf [:: 1; 3] [:: 2; 1] 5 = 2.
+Proof. by []. Qed.
